@@ -570,8 +570,7 @@ def r4(rep, v, prog, mod, F):
     n = 0; ovmemo = {}
     for call, rf, srcs in F.consumers:
         fn = call.fn
-        stor = [sc[1] for sc in srcs if sc[0] == 'node' and sc[1][0] in ('F', 'G', 'D') and not (sc[1][0] == 'D' and sc[1][1][0] in ('P', 'R', 'X', 'L') and False)]
-        stor = [x for x in stor if x[0] != 'L']
+        stor = [sc[1] for sc in srcs if sc[0] == 'node' and sc[1][0] in ('F', 'G', 'D')]
         if not stor: continue
         base = norm(fn.name)
         n += 1
@@ -868,12 +867,12 @@ def run(ctx):
     rep.setcount('variants_analysed', len(vs)); rep.setcount('reject_variants', nrej); rep.setcount('scanner_functions_analysed', nfn)
     for r_, c in tot.items(): rep.setcount('instances_' + r_, c)
     rep.setcount('positive_control_reports', nctl)
-    rep.floor('C13.R1', 800, '>=8 release calls in each of >=100 variants')
-    rep.floor('C13.R2', 1500, '>=8 allocation sites + >=4 storage locations + >=2 hand-outs per variant')
-    rep.floor('C13.R3', 30, '>=5 buffer-switch events in each of >=16 REJECT variants')
-    rep.floor('C13.R4', 600, '>=6 releases of stored pointers per variant')
-    rep.floor('C13.R5', 700, '>=4 lazily initialised locations + destroy order + companions per variant')
-    rep.floor('C13.R6', 200, '2 allocation sites of yy_ch_buf per variant')
+    rep.floor('C13.R1', 950, 'measured 1030: 6-14 release calls in each of 118 variants')
+    rep.floor('C13.R2', 2200, 'measured 2440: two obligations per allocation call site (8-14 sites) in each of 118 variants')
+    rep.floor('C13.R3', 100, 'measured 114: 6 buffer-activation events in each of 19 REJECT variants')
+    rep.floor('C13.R4', 880, 'measured 966: 6-14 releases of stored pointers + the slot clearing per variant')
+    rep.floor('C13.R5', 1100, 'measured 1195: 4-7 lazily initialised locations + destroy order + 4-6 companions per variant')
+    rep.floor('C13.R6', 300, 'measured 335: 2-3 allocation sites of yy_ch_buf per variant')
     rep.undecided += ['absence of out-of-bounds accesses driven by table contents or input length', 'use of uninitialised memory',
                       'that the ownership flag yy_is_our_buffer is set correctly for every buffer (only that releases test it)',
                       'object-sensitive facts: which buffer a field belongs to (the analysis is field-based)',
